@@ -264,13 +264,9 @@ func (this *Parser) Parse(scanner Scanner) (res interface{}, err error) {
 	for acc := false; !acc; {
 		action, ok := this.actTab[this.stack.Top()].Actions[this.nextToken.Type]
 		if !ok {
-			if recovered, errAttrib := this.Error(nil, scanner); !recovered {
-				this.nextToken, this.pos = errAttrib.ErrorToken, errAttrib.ErrorPos
-				return nil, this.newError(nil)
-			}
-			if action, ok = this.actTab[this.stack.Top()].Actions[this.nextToken.Type]; !ok {
-				panic("Error recover led to invalid action")
-			}
+			// The grammar of gocc grammars has no error-recovery productions: its terminal
+			// "error" is the keyword of the BNF, not a recovery symbol. A syntax error is final.
+			return nil, this.newError(nil)
 		}
 		// fmt.Printf("S%d %s %s\n", this.stack.Top(), this.nextToken, action)
 		switch act := action.(type) {
